@@ -62,10 +62,6 @@ fn strategy() -> impl Strategy<Value = Case> {
         })
 }
 
-fn site_tokens(stderr: &str) -> Vec<&str> {
-    stderr.split(|c: char| !(c.is_alphanumeric() || c == '_')).collect()
-}
-
 fn eval(ctx: &Ctx, case: &Case) -> Verdict {
     let dir = ctx.worker_dir(crate::engine::worker_id());
     let n_records = case.cs.records.len();
@@ -116,9 +112,8 @@ fn eval(ctx: &Ctx, case: &Case) -> Verdict {
                 ensure!(srun.clean_failure(), "{swhat}: record {ri} would be skipped, strict mode must fail: {}", srun.describe());
                 ensure!(srun.stdout.is_empty(), "{swhat}: a failing run must not write a spectrum: {}", srun.describe());
                 let serr = srun.stderr_str();
-                let tokens = site_tokens(&serr);
                 ensure!(
-                    tokens.contains(&case.cs.contigs[rec.contig].as_str()) && tokens.contains(&rec.pos.to_string().as_str()),
+                    crate::props::common::names_site(&serr, &case.cs.contigs[rec.contig], rec.pos),
                     "{swhat}: strict mode must name the FIRST record that would be skipped, {}:{} (record {ri}): {}",
                     case.cs.contigs[rec.contig],
                     rec.pos,
@@ -369,8 +364,7 @@ fn eval_sweep(ctx: &Ctx, case: &SweepCase) -> Verdict {
         ensure!(!run.stdout_str().contains("#SHAPE") && run.stdout.is_empty(), "{what}: a failing run wrote output (partial spectrum?): {}", run.describe());
         if let Some((contig, pos)) = faulty_site {
             let serr = run.stderr_str();
-            let tokens = site_tokens(&serr);
-            ensure!(tokens.contains(&contig.as_str()) && tokens.contains(&pos.to_string().as_str()), "{what}: the error must name the first failing record {contig}:{pos}: {}", run.describe());
+            ensure!(crate::props::common::names_site(&serr, &contig, pos), "{what}: the error must name the first failing record {contig}:{pos}: {}", run.describe());
         }
         if at > 0 {
             positions_after_first += 1;
